@@ -238,6 +238,14 @@ def make_element(spec, cellname):
         return Elem("HHJ", cellname, spec[1], (t, t), "double_contravariant", "HDivDiv")
     if k == "GLS":
         return Elem("GLS", cellname, spec[1], (t, t), "covariant_contravariant", "HCurlDiv")
+    if k == "piola":
+        # ["piola", kind, leading block shape, degree]: row-wise application to block-shaped reference values
+        kind, lead, deg = spec[1], tuple(spec[2]), spec[3]
+        tail = {"contravariant": (t,), "covariant": (t,), "l2": (), "double_contravariant": (t, t),
+                "double_covariant": (t, t), "covariant_contravariant": (t, t), "identity": ()}[kind]
+        sob = {"contravariant": "HDiv", "covariant": "HCurl", "l2": "L2", "double_contravariant": "HDivDiv",
+               "double_covariant": "HEin", "covariant_contravariant": "HCurlDiv", "identity": "H1"}[kind]
+        return Elem("piola_" + kind, cellname, deg, lead + tail, kind, sob)
     if k == "mixed":
         return Mixed([make_element(s, cellname) for s in spec[1]])
     if k == "sym":
